@@ -91,6 +91,7 @@ class Engine(CoreMixin, ExprMixin, CallMixin, StmtMixin, BuiltinMixin):
         self.loop_ordinal = 0
         self.lemma_instances_used = set()
         self.def_groups = {}
+        self.sdict_facts = {}
         self._concat_all_seen = []
         self.uses_id = False
         self.cur_glob = fi.glob
@@ -264,6 +265,7 @@ class Engine(CoreMixin, ExprMixin, CallMixin, StmtMixin, BuiltinMixin):
         rep.pending = list(self.obls) if rep.out_of_subset is None else []
         rep.input_terms = dict(self.input_terms)
         rep.def_groups = dict(self.def_groups)
+        rep.sdict_facts = dict(self.sdict_facts)
         if rep.out_of_subset is None and not getattr(self, "defer", False):
             self.discharge(rep, timeout, keep_dir, pool)
         rep.wall = time.time() - t0
@@ -401,6 +403,30 @@ class Engine(CoreMixin, ExprMixin, CallMixin, StmtMixin, BuiltinMixin):
                     if not _re2.search(r"(?<![\w])" + _re2.escape(r_) + r"(?![\w])", rest):
                         facts = [f for f in facts if f not in g_]
                         again = True
+            # a dict with statically known keys is defined entry by entry (27 keyword entries in _serialize_element): only the
+            # entries whose key literal the rest of the VC mentions are kept (the size equation always stays: cvc5 is 15x faster with it)
+            sd = getattr(rep, "sdict_facts", None) if rep is not None else self.sdict_facts
+            if sd:
+                entry_facts = {f for info in sd.values() for fs in info["keys"].values() for f in fs}
+                admin = {info["others"] for info in sd.values()} | {info["len"] for info in sd.values()}
+                rest = " ".join(f for f in facts if f not in entry_facts and f not in admin) + " " + o.goal
+                kept = set()
+                grew = True
+                while grew:
+                    grew = False
+                    for r_, info in sd.items():
+                        for klit, fs in info["keys"].items():
+                            if (r_, klit) not in kept and klit in rest:
+                                kept.add((r_, klit))
+                                rest += " " + " ".join(fs)
+                                grew = True
+                dropf = set()
+                for r_, info in sd.items():
+                    for klit, fs in info["keys"].items():
+                        if (r_, klit) not in kept:
+                            dropf.update(fs)
+                if dropf:
+                    facts = [f for f in facts if f not in dropf]
             for f in list(facts):
                 m = _re2.match(r"\(= (pv_clist_\d+) \(v_list ", f)
                 if m:
